@@ -19,7 +19,7 @@ def T(tier, q, t):
 def run(tier, seed, t0):
     m = Merged(); wd = R.workdir(ID)
     n = T(tier, 320, 20000)
-    R.run_inv(Inv("remesh", n, "plain", args=["--oracle=c01", "--max_faces=%d" % T(tier, 400, 1500), "--max_passes=%d" % T(tier, 14, 25)], timeout=T(tier, 1500, 6 * 3600)), seed, wd, m)
+    R.run_inv(Inv("remesh", n, "plain", args=["--oracle=c01", "--max_faces=%d" % T(tier, 400, 1500), "--max_passes=%d" % T(tier, 14, 25), "--cpu_limit=%d" % T(tier, 120, 400)], timeout=T(tier, 1500, 6 * 3600)), seed, wd, m)
     na = T(tier, 32, 600)
     R.run_inv(Inv("remesh", na, "asan", args=["--oracle=c01", "--max_faces=200", "--max_passes=8"], first=n, timeout=T(tier, 1500, 3 * 3600)), seed, wd, m)
     floors = {
